@@ -15,10 +15,17 @@
    merges the runtime branch at a/b into the file's branch at a/b (the union again) and changes nothing off that path.
    Root metadata follow the same rule per entry name (append: file entries win; append-over: runtime entries replace).
    (7) save(path, node, mode = append) for an inner node: merged at its own path, or written whole when it is one beyond
-   the file.  (8) save(path, node, mode = append-over) for an inner node: replaced in its parent's group.  PARTIAL: an
-   inner node as the data together with an emdpath, and append-over with an emdpath, are tied by correspondence + the
-   reference-model oracle. *)
-From Emd Require Import Base.Prelude Model.H5 Model.Emd Model.Reader Generated.Tables Proofs.PTree Proofs.PFault Proofs.PAppend Proofs.PRead Proofs.PUnion Proofs.PUnionAO Proofs.PTarget Proofs.PAfter.
+   the file.  (8) save(path, node, mode = append-over) for an inner node: replaced in its parent's group.  (9) an inner
+   node together with an emdpath: naming the node's own place or its parent, the emdpath is redundant (every mode, every
+   tree flag); naming a file node below the node, the runtime node found at that place is merged there.  (10) every save whose
+   data is moved to an emdpath target inside the same tree (the whole tree at an emdpath; an inner node at an emdpath below
+   it) equals the save of the node found there without an emdpath, for every mode and tree flag.  (11) root metadata first: a
+   save from a runtime root carrying metadata = the per-entry metadata merge on the file root, then the same save from a
+   metadata-free root (every target, mode, flag, emdpath inside the tree) -- which lifts (6)-(10), stated for roots
+   without metadata, to all roots when the file root has metadata.  Remaining outside the theorems (correspondence +
+   reference-model oracle): a file root without metadata receiving some (the bundle is then appended after the children:
+   same content, different link order), emdpath targets holding a link named like the moved node. *)
+From Emd Require Import Base.Prelude Model.H5 Model.Emd Model.Reader Generated.Tables Proofs.PTree Proofs.PFault Proofs.PAppend Proofs.PRead Proofs.PUnion Proofs.PUnionAO Proofs.PTarget Proofs.PAfter Proofs.PRootMd Proofs.PSubst.
 
 (* merge m n: m's own content; a child of n called like a child of m is merged into it, recursively; the other children
    of n follow m's, each with its whole branch.  compat m n: n's children are distinctly named, are not called like a
@@ -156,6 +163,179 @@ Theorem C09_inner_node_append_merges_at_its_own_path :
                (forall q, is_pref q (rname m :: tp) = false -> is_pref (rname m :: tp) q = false -> lookup f' q = lookup (whole_file c0 m) q).
 Proof. exact inner_node_append_merges_at_its_own_path. Qed.
 Print Assumptions C09_inner_node_append_merges_at_its_own_path.
+
+(* the same save together with an emdpath that names the node's own place or its parent (the two forms the docstring
+   describes): the same merge at the node's own path, everything outside that path untouched *)
+Theorem C09_inner_node_append_with_an_emdpath_to_itself_or_its_parent :
+  forall c0 m root tp km data md tr ep_path,
+    In md appendmode -> tr <> Some false ->
+    rcls m = CRoot -> rname root = rname m -> rmds root = [] -> ok_tree m ->
+    tp <> [] -> rwalk m tp = Some km -> rwalk root tp = Some data -> compat km data ->
+    Forall (fun s => s <> "" /\ no_slash s = true) (rname m :: tp) ->
+    (ep_path = tp \/ ep_path = removelast tp) ->
+    exists f', append_existing root tp (WA md tr (Some (join_slash (rname m :: ep_path)))) md (whole_file c0 m) = Ok f' /\
+               lookup f' (rname m :: tp) = Some (enc (merge km data)) /\
+               (forall q, is_pref q (rname m :: tp) = false -> is_pref (rname m :: tp) q = false -> lookup f' q = lookup (whole_file c0 m) q).
+Proof. exact inner_node_append_with_its_own_or_parent_emdpath. Qed.
+Print Assumptions C09_inner_node_append_with_an_emdpath_to_itself_or_its_parent.
+
+(* non-vacuity: file r/{a/{x}, b}; runtime r/{a/{y}}; save(a, emdpath = 'r/a') and save(a, emdpath = 'r') both give r/{a/{x, y}, b} *)
+Example C09_inner_node_emdpath_example :
+  let m := RN CRoot "r" 0%Z 0 [] [RN CArray "a" 5%Z 1 [] [RN CNode "x" 0%Z 0 [] []]; RN CNode "b" 0%Z 0 [] []] in
+  let root := RN CRoot "r" 0%Z 0 [] [RN CArray "a" 6%Z 1 [] [RN CNode "y" 0%Z 0 [] []]] in
+  let want := whole_file (CFG "p" "u") (RN CRoot "r" 0%Z 0 [] [RN CArray "a" 5%Z 1 [] [RN CNode "x" 0%Z 0 [] []; RN CNode "y" 0%Z 0 [] []]; RN CNode "b" 0%Z 0 [] []]) in
+  ok_tree m /\ Forall (fun s => s <> "" /\ no_slash s = true) ["r"; "a"] /\
+  append_existing root ["a"] (WA "a" None (Some "r/a")) "a" (whole_file (CFG "p" "u") m) = Ok want /\
+  append_existing root ["a"] (WA "a" None (Some "r")) "a" (whole_file (CFG "p" "u") m) = Ok want.
+Proof.
+  cbv zeta. split; [apply ok_treeb_sound; reflexivity|]. split; [repeat constructor; discriminate|]. split; vm_compute; reflexivity.
+Qed.
+
+(* for every mode and every tree flag, that emdpath is redundant: the save does exactly what it does without it; with the
+   theorems for saves without an emdpath this settles append and append-over of an inner node given such an emdpath *)
+Theorem C09_inner_node_emdpath_to_itself_or_its_parent_is_redundant :
+  forall c0 m root tp km data md tr ep_path,
+    rcls m = CRoot -> rname root = rname m -> rmds root = [] -> ok_tree m ->
+    tp <> [] -> rwalk m tp = Some km -> rwalk root tp = Some data ->
+    Forall (fun s => s <> "" /\ no_slash s = true) (rname m :: tp) ->
+    (ep_path = tp \/ ep_path = removelast tp) ->
+    append_existing root tp (WA md tr (Some (join_slash (rname m :: ep_path)))) md (whole_file c0 m)
+    = append_existing root tp (WA md tr None) md (whole_file c0 m).
+Proof. exact inner_node_emdpath_to_itself_or_parent_is_redundant. Qed.
+Print Assumptions C09_inner_node_emdpath_to_itself_or_its_parent_is_redundant.
+
+(* an emdpath naming a file node BELOW the inner node (and not holding a link named like the node): the runtime node found
+   at that place below the data is merged into the file node there; nothing off that path changes *)
+Theorem C09_inner_node_with_an_emdpath_below_it_merges_at_the_target :
+  forall c0 m root tp rel km kt data d2 md tr,
+    In md appendmode -> tr <> Some false ->
+    rcls m = CRoot -> rname root = rname m -> rmds root = [] -> ok_tree m ->
+    tp <> [] -> rel <> [] -> rwalk m tp = Some km -> rwalk m (tp ++ rel) = Some kt ->
+    rwalk root tp = Some data -> rwalk data rel = Some d2 -> compat kt d2 ->
+    get (olinks (enc kt)) (last tp "") = None ->
+    Forall (fun s => s <> "" /\ no_slash s = true) (rname m :: tp ++ rel) ->
+    exists f', append_existing root tp (WA md tr (Some (join_slash (rname m :: tp ++ rel)))) md (whole_file c0 m) = Ok f' /\
+               lookup f' (rname m :: tp ++ rel) = Some (enc (merge kt d2)) /\
+               (forall q, is_pref q (rname m :: tp ++ rel) = false -> is_pref (rname m :: tp ++ rel) q = false -> lookup f' q = lookup (whole_file c0 m) q).
+Proof. exact inner_node_with_an_emdpath_below_it. Qed.
+Print Assumptions C09_inner_node_with_an_emdpath_below_it_merges_at_the_target.
+
+(* non-vacuity: file r/a/b/{x}; runtime r/a/b/{y}; save(a, emdpath = 'r/a/b') gives r/a/b/{x, y} *)
+Example C09_emdpath_below_example :
+  let m := RN CRoot "r" 0%Z 0 [] [RN CNode "a" 0%Z 0 [] [RN CNode "b" 0%Z 0 [] [RN CNode "x" 0%Z 0 [] []]]] in
+  let root := RN CRoot "r" 0%Z 0 [] [RN CNode "a" 0%Z 0 [] [RN CNode "b" 0%Z 0 [] [RN CNode "y" 0%Z 0 [] []]]] in
+  let want := whole_file (CFG "p" "u") (RN CRoot "r" 0%Z 0 [] [RN CNode "a" 0%Z 0 [] [RN CNode "b" 0%Z 0 [] [RN CNode "x" 0%Z 0 [] []; RN CNode "y" 0%Z 0 [] []]]]) in
+  ok_tree m /\ get (olinks (enc (RN CNode "b" 0%Z 0 [] [RN CNode "x" 0%Z 0 [] []]))) (last ["a"] "") = None /\
+  append_existing root ["a"] (WA "a" None (Some "r/a/b")) "a" (whole_file (CFG "p" "u") m) = Ok want.
+Proof. cbv zeta. split; [apply ok_treeb_sound; reflexivity|]. split; vm_compute; reflexivity. Qed.
+
+(* ---------- saves whose data is moved to an emdpath target inside the same tree ARE the save of the node found there,
+   without an emdpath -- for every mode (append, append-over, every spelling) and every tree flag.  With the theorems for
+   saves of an inner node (merged at its own path / replaced in its parent) this settles them. *)
+Theorem C09_whole_tree_at_an_emdpath_is_the_save_of_the_node_there :
+  forall c0 m root p km d2 md tr,
+    rcls m = CRoot -> rname root = rname m -> rmds root = [] -> ok_tree m -> p <> [] ->
+    rwalk m p = Some km -> rwalk root p = Some d2 ->
+    Forall (fun s => s <> "" /\ no_slash s = true) (rname m :: p) ->
+    append_existing root [] (WA md tr (Some (join_slash (rname m :: p)))) md (whole_file c0 m)
+    = append_existing root p (WA md tr None) md (whole_file c0 m).
+Proof. exact whole_tree_at_an_emdpath_is_the_inner_node_save. Qed.
+Print Assumptions C09_whole_tree_at_an_emdpath_is_the_save_of_the_node_there.
+
+Theorem C09_inner_node_at_an_emdpath_below_it_is_the_save_of_the_node_there :
+  forall c0 m root tp rel km kt data d2 md tr,
+    rcls m = CRoot -> rname root = rname m -> rmds root = [] -> ok_tree m ->
+    tp <> [] -> rel <> [] -> rwalk m tp = Some km -> rwalk m (tp ++ rel) = Some kt ->
+    rwalk root tp = Some data -> rwalk data rel = Some d2 ->
+    get (olinks (enc kt)) (last tp "") = None ->
+    Forall (fun s => s <> "" /\ no_slash s = true) (rname m :: tp ++ rel) ->
+    append_existing root tp (WA md tr (Some (join_slash (rname m :: tp ++ rel)))) md (whole_file c0 m)
+    = append_existing root (tp ++ rel) (WA md tr None) md (whole_file c0 m).
+Proof. exact inner_node_at_an_emdpath_below_it_is_the_save_of_the_node_there. Qed.
+Print Assumptions C09_inner_node_at_an_emdpath_below_it_is_the_save_of_the_node_there.
+
+(* ---------- root metadata first: a save into an existing tree from a runtime root that carries metadata = the metadata
+   merge on the file root (append: file entries win; append-over: runtime entries replace) followed by the same save from a
+   metadata-free root; for every target, mode and tree flag, without an emdpath or with one that names a node of the tree.
+   This extends every theorem above that assumes `rmds root = []` to all runtime roots (file root with metadata). *)
+Theorem C09_root_metadata_first :
+  forall c0 m root tp md tr ep,
+    rcls m = CRoot -> rname root = rname m -> ok_tree m ->
+    rmds m <> [] -> NoDup (keys (rmds m)) -> NoDup (keys (rmds root)) ->
+    (match ep with
+     | None => True
+     | Some e => exists p k, e = join_slash (rname m :: p) /\ rwalk m p = Some k /\ Forall (fun s => s <> "" /\ no_slash s = true) (rname m :: p)
+     end) ->
+    append_existing root tp (WA md tr ep) md (whole_file c0 m)
+    = append_existing (with_mds root []) tp (WA md tr ep) md
+        (whole_file c0 (with_mds m (md_of (mem md appendovermode) (rmds m) (rmds root)))).
+Proof. exact root_metadata_first. Qed.
+Print Assumptions C09_root_metadata_first.
+
+(* ---------- closed form: the file after a targeted append IS the encoding of the file tree with the node at p replaced by
+   the union (rsubst p m k' = m with the node at path p replaced by k'); so it reads back as that tree (C01) and is valid (C05) *)
+Theorem C09_the_file_after_an_inner_node_append_in_closed_form :
+  forall c0 m root p km d2 md tr,
+    In md appendmode -> tr <> Some false ->
+    rcls m = CRoot -> rname root = rname m -> rmds root = [] -> ok_tree m -> p <> [] ->
+    rwalk m p = Some km -> rwalk root p = Some d2 -> compat km d2 ->
+    append_existing root p (WA md tr None) md (whole_file c0 m) = Ok (whole_file c0 (rsubst p m (merge km d2))).
+Proof. exact inner_node_append_closed_form. Qed.
+Print Assumptions C09_the_file_after_an_inner_node_append_in_closed_form.
+
+Theorem C09_the_file_after_a_targeted_append_in_closed_form :
+  forall c0 m root p km d2 md tr,
+    In md appendmode -> tr <> Some false ->
+    rcls m = CRoot -> rname root = rname m -> rmds root = [] -> ok_tree m -> p <> [] ->
+    rwalk m p = Some km -> rwalk root p = Some d2 -> compat km d2 ->
+    Forall (fun s => s <> "" /\ no_slash s = true) (rname m :: p) ->
+    append_existing root [] (WA md tr (Some (join_slash (rname m :: p)))) md (whole_file c0 m) = Ok (whole_file c0 (rsubst p m (merge km d2))).
+Proof. exact targeted_append_closed_form. Qed.
+Print Assumptions C09_the_file_after_a_targeted_append_in_closed_form.
+
+(* save(path, root, mode = append, emdpath = 'root/p') onto a file holding the tree m, then a read of the file: the tree m
+   with the node at p replaced by the union of the file's and the runtime tree's branches there (canon as in C01) *)
+Theorem C09_a_read_after_a_targeted_append_returns_the_substituted_union :
+  forall c c0 m root p km d2 md tr,
+    In md appendmode -> tr <> Some false ->
+    rcls m = CRoot -> rname root = rname m -> rmds root = [] -> ok_tree m -> p <> [] ->
+    rwalk m p = Some km -> rwalk root p = Some d2 -> compat km d2 ->
+    Forall (fun s => s <> "" /\ no_slash s = true) (rname m :: p) ->
+    rd_tree m -> rd_tree d2 ->
+    let t := rsubst p m (merge km d2) in
+    exists f, write_node c (H5 (whole_file c0 m)) root [] (WA md tr (Some (join_slash (rname m :: p)))) = (Ok tt, H5 f) /\
+              read (H5 f) None (Some true) = Ok (RTree (canon t) (ret_of (canon t))).
+Proof. exact targeted_append_then_read. Qed.
+Print Assumptions C09_a_read_after_a_targeted_append_returns_the_substituted_union.
+
+Theorem C09_the_file_after_a_foreign_tree_is_placed_under_an_emdpath_in_closed_form :
+  forall c0 m root p kt md tr,
+    rcls m = CRoot -> rname root <> rname m -> ok_tree m -> rwalk m p = Some kt -> tr <> Some false -> ok_tree root ->
+    (forall k, In k (rkids root) -> ~ In (rname k) (keys (olinks (enc kt)))) ->
+    Forall (fun s => s <> "" /\ no_slash s = true) (rname m :: p) ->
+    append_existing root [] (WA md tr (Some (join_slash (rname m :: p)))) md (whole_file c0 m)
+    = Ok (whole_file c0 (rsubst p m (with_kids kt (rkids kt ++ rkids root)))).
+Proof. exact foreign_tree_closed_form. Qed.
+Print Assumptions C09_the_file_after_a_foreign_tree_is_placed_under_an_emdpath_in_closed_form.
+
+Theorem C09_the_file_after_an_inner_node_appendover_in_closed_form :
+  forall c0 m root q x pk km data md,
+    In md appendovermode ->
+    rcls m = CRoot -> rname root = rname m -> rmds root = [] -> ok_tree m ->
+    rwalk m q = Some pk -> rwalk m (q ++ [x]) = Some km ->
+    rwalk root (q ++ [x]) = Some data -> rname data = x ->
+    compat_ao (RN CNode "" 0%Z 0 [] [data]) (shallow_links pk) (rkids pk) ->
+    append_existing root (q ++ [x]) (WA md (Some true) None) md (whole_file c0 m)
+    = Ok (whole_file c0 (rsubst q m (with_kids pk (aom (RN CNode "" 0%Z 0 [] [data]) (rkids pk))))).
+Proof. exact inner_node_appendover_closed_form. Qed.
+Print Assumptions C09_the_file_after_an_inner_node_appendover_in_closed_form.
+
+Example C09_closed_form_example :
+  let m := RN CRoot "r" 0%Z 0 [] [RN CNode "a" 0%Z 0 [] [RN CNode "b" 0%Z 0 [] [RN CNode "x" 0%Z 0 [] []]; RN CNode "s" 0%Z 0 [] []]] in
+  let d2 := RN CNode "b" 0%Z 0 [] [RN CNode "y" 0%Z 0 [] []] in
+  rsubst ["a"; "b"] m (merge (RN CNode "b" 0%Z 0 [] [RN CNode "x" 0%Z 0 [] []]) d2)
+  = RN CRoot "r" 0%Z 0 [] [RN CNode "a" 0%Z 0 [] [RN CNode "b" 0%Z 0 [] [RN CNode "x" 0%Z 0 [] []; RN CNode "y" 0%Z 0 [] []]; RN CNode "s" 0%Z 0 [] []]].
+Proof. vm_compute. reflexivity. Qed.
 
 Theorem C09_inner_node_one_beyond_the_file_is_written_whole :
   forall c0 m root q x pk data md,
